@@ -83,7 +83,7 @@ def handle (op : String) (args : List String) : String :=
     match (Hex.dec desc).map stringOfBytes |>.bind parseDesc with
     | none => "err BadDesc"
     | some ents =>
-      let f : Forest := { ents := ents, infos := [], lists := [], nextGid := 0, fixedChange := variant == "f" }
+      let f : Forest := { ents := ents, infos := [], lists := [], nextGid := 0, fixedChange := variant.startsWith "f" }
       "ok D=" ++ Hex.enc (bytesOfString (showDesc ents)) ++ runScript f ((script.splitOn ";").filter (· ≠ ""))
   | _, _ => "err BadOp"
 
